@@ -191,6 +191,10 @@ fn check_inner(sub: &str, g: &G, toks: &[char], l: &mut Local) -> CaseRes {
 }
 
 pub fn check_case(case: &Case, l: &mut Local) -> Result<(), Fail> {
+    if case.sub == "kinds" {
+        let seed = case.extra.get("gap_seed").and_then(|p| p.as_u64()).unwrap_or(1);
+        return kinds_case(ID, &case.g, &case.toks(), seed, l).map_err(|(_, f)| f);
+    }
     check_inner(&case.sub, &case.g, &case.toks(), l).map_err(|(_, f)| f)
 }
 
@@ -288,7 +292,14 @@ pub fn run(tier: Tier, seed: u64) -> i32 {
     ctx.par_random(n, 180, 6, |tape, l| {
         let (g, input, sub) = decode(tape);
         debug_assert!(wf(&g), "ill-formed: {}", render(&g));
-        check_inner(sub, &g, &input, l)
+        check_inner(sub, &g, &input, l)?;
+        // one case in sixteen (not the decorated class: labels are C17's): the reported errors on every other input
+        // representation too -- spans well-formed and at the same tokens (C10's comparison against the slice baseline)
+        if tape.first().copied().unwrap_or(0) % 16 == 0 && !sub.starts_with("decorated") {
+            l.bump("cases_on_every_input_kind");
+            kinds_case(ID, &g, &input, 1 + (tape.len() as u64 % 5), l)?;
+        }
+        Ok(())
     });
     ctx.finish(&check_case, RULE, ASSUMPTIONS, &|l| {
         for k in [
